@@ -37,7 +37,7 @@ from cnfgen.formula.cnfio import guess_output_format
 
 from cnfgen.clitools.cmdline import paginate_or_redirect_stdout
 from cnfgen.clitools.cmdline import setup_SIGINT
-from cnfgen.clitools.cmdline import seed_from_command_line
+from cnfgen.clitools.cmdline import SeedAction
 from cnfgen.clitools.cmdline import CLIParser, CLIError, CLIHelpFormatter
 
 from cnfgen.clitools.cmdline import get_formula_helpers
@@ -254,7 +254,7 @@ def setup_command_line_parsers(progname, fhelpers):
                         metavar="<seed>",
                         default=None,
                         type=int,
-                        action='store')
+                        action=SeedAction)
     g = parser.add_mutually_exclusive_group()
     g.add_argument('--verbose',
                    '-v',
@@ -396,11 +396,6 @@ def cli(argv=None, mode='output'):
 
     # Be lenient on non string arguments
     argv = [str(x) for x in argv]
-
-    # Random graph arguments are built during the parsing
-    early_seed = seed_from_command_line(argv[1:])
-    if early_seed is not None:
-        random.seed(early_seed)
 
     with msg_prefix('* '):
         args = parse_command_line(argv, parser)
